@@ -210,16 +210,20 @@ def _run_scene(desc, V):
     subjects = [_mk_tree(alg, V, rng, desc['depth'], counter) for _ in range(rng.randint(1, 4))]
     subjects.insert(rng.randrange(len(subjects) + 1), 0x00AA88)
     cam = _mk_mv(alg, V, rng, 'cam', layout=rng.choice(['sparse', 'dense-canonical', 'permuted']))
+    cam_arg = cam if rng.random() < 0.6 else (lambda: cam)          # options reach multivectors through zero-argument callables too
     wrap = rng.choice([None, None, 'tuple', 'list'])
     if wrap:
         # exactly ONE subject: a zero-argument function returning all subjects (ganja's animation idiom)
         seq = tuple(subjects) if wrap == 'tuple' else list(subjects)
-        g = alg.graph(lambda: seq, camera=cam, grid=1)
+        g = alg.graph(lambda: seq, camera=cam_arg, grid=1)
     else:
-        g = alg.graph(*subjects, camera=cam, grid=1)
+        g = alg.graph(*subjects, camera=cam_arg, grid=1)
     k2i = dict(g.key2idx)
     claims = _cmp_leaves('subjects', leaves(decode(g.subjects, k2i)), expected_leaves(subjects, alg), 'scene|subjects')
-    claims += _cmp_leaves('camera', leaves(decode(g.options['camera'], k2i)), expected_leaves(cam, alg), 'scene|camera')
+    if not isinstance(g.options['camera'], (dict, list, tuple, int, float, str)):
+        claims.append(Fail('camera:type', f'options["camera"] is a {type(g.options["camera"]).__name__}, not an encoded multivector', 'scene|camera'))
+    else:
+        claims += _cmp_leaves('camera', leaves(decode(g.options['camera'], k2i)), expected_leaves(cam, alg), 'scene|camera')
     if g.options.get('grid') != 1:
         claims.append(Fail('options', 'other options were altered', 'scene|options'))
     # draggable points: first-level multivectors (PGA d=3,4: only grade d-1 points)
